@@ -6,6 +6,9 @@ cd /repo || exit 2
 if [ -n "$(git status --porcelain)" ]; then echo "/repo not clean"; exit 2; fi
 git apply "$patch" || { echo "patch does not apply"; exit 2; }
 for p in "$@"; do
+  # evidence written while a seeded change is applied must not replace the evidence of the unchanged tree
+  cp /verif/evidence/$p.json /verif/.work/evidence_$p.bak 2>/dev/null
   (cd /verif && timeout 1500 ./check "$p" 2>&1 | grep -E '^(OK|VIOLATION|KNOWN|  witness|  broken)' | cut -c1-420)
+  cp /verif/.work/evidence_$p.bak /verif/evidence/$p.json 2>/dev/null
 done
 git -C /repo checkout -- . && git -C /repo status --porcelain | head -3
